@@ -162,7 +162,7 @@ Proof.
     pose proof (i_core _ (reachable_Inv grp (evs ++ [e]))) as H. unfold state_after in H. rewrite fold_left_app in H. cbn [fold_left] in H.
     fold (state_after grp evs) in H. fold s in H.
     destruct (j2 _ _ H) as [C|C]; auto. exfalso. cbn [radv] in C.
-    assert (G : exists g, In g (gens (fst (step s e))) /\ adv g = true).
+    assert (G : exists g, In g (gens (fst (step s e))) /\ adv g = true /\ is_prep g = false).
     { clear - Hin. destruct e; cbn [step] in *.
       - destruct (start_d s); [destruct Hin as [X|[]]; discriminate|]. match type of Hin with context [join_and_sync ?x] => pose proof (join_and_sync_out x (OJoin rid m)) as J; destruct (join_and_sync x) end.
         cbn [snd] in *. apply in_app_or in Hin. destruct Hin as [Hin|[X|[]]]; [|discriminate]. destruct (J Hin) as (? & X & _). discriminate.
@@ -176,9 +176,9 @@ Proof.
         destruct (stop_pend (set_gens rest s)); [destruct Hin|]. unfold prepare_and_join in *.
         destruct (is_group _).
         + destruct (consumers _).
-          * eexists. split; [left; reflexivity|reflexivity].
-          * eexists. split; [left; reflexivity|reflexivity].
-        + eexists. split; [left; reflexivity|reflexivity].
+          * eexists. split; [left; reflexivity|split; reflexivity].
+          * exfalso. unfold begin_shutdown in Hin. cbn [snd] in Hin. apply in_map_iff in Hin. destruct Hin as (? & X & _). discriminate.
+        + eexists. split; [left; reflexivity|split; reflexivity].
       - exfalso. pose proof (on_join_out _ _ _ _ Hin) as X. cbn in X. destruct X as (_ & _ & [(? & X)|(? & ? & X)]); discriminate.
       - exfalso. pose proof (on_parts_out _ _ _ _ Hin) as X. cbn in X. destruct X as (_ & _ & [(? & X)|(? & ? & X)]); discriminate.
       - exfalso. pose proof (on_sync_out _ _ _ _ Hin) as X. cbn in X. destruct X as (_ & _ & [(? & X)|(? & ? & X)]); discriminate.
@@ -189,9 +189,9 @@ Proof.
       - exfalso. pose proof (on_cfail_out _ _ _ _ Hin) as X. cbn in X. destruct X as (_ & _ & [(? & X)|(? & ? & X)]); discriminate.
       - unfold on_cshut in *. destruct (take_first (fun g => sh_has cid (gen_list g)) (gens s)) as [[g0 rest]|].
         + assert (J : forall l, In (OJoin rid m) (snd (after_prepare (g_id g0) (set_gens rest s))) \/ In (OJoin rid m) l -> Q l ->
-                    exists g, In g (gens (fst (after_prepare (g_id g0) (set_gens rest s)))) /\ adv g = true).
+                    exists g, In g (gens (fst (after_prepare (g_id g0) (set_gens rest s)))) /\ adv g = true /\ is_prep g = false).
           { intros l [X|X] Ql; [|unfold Q in Ql; rewrite Forall_forall in Ql; specialize (Ql _ X); discriminate].
-            unfold after_prepare in *. destruct (stop_pend _); [destruct X|]. eexists. split; [left; reflexivity|reflexivity]. }
+            unfold after_prepare in *. destruct (stop_pend _); [destruct X|]. eexists. split; [left; reflexivity|split; reflexivity]. }
           destruct ok.
           * destruct (sh_all_done _); [apply (J []); [left; exact Hin|apply Q_nil]|destruct Hin].
           * rewrite emits_fst. apply emits_out in Hin. eapply J; [destruct Hin as [X|X]; [right; exact X|left; exact X]|apply Q_stop_pending].
@@ -201,7 +201,7 @@ Proof.
           * apply emits_out in Hin. destruct Hin as [X|X].
             -- pose proof (Q_stop_pending (sh_mark_done cid (stop_list st))) as J. unfold Q in J; rewrite Forall_forall in J; specialize (J _ X); discriminate.
             -- pose proof (q_coord_stop st (set_stops rest s)) as J. unfold Q in J; rewrite Forall_forall in J; specialize (J _ X); discriminate. }
-    destruct G as (g & G1 & G2). pose proof (in_cnt_pos _ adv _ _ G1 G2). lia.
+    destruct G as (g & G1 & G2 & _). pose proof (in_cnt_pos _ adv _ _ G1 G2). lia.
   - pose proof (i_core _ (reachable_Inv grp (evs ++ [e]))) as H. unfold state_after in H. rewrite fold_left_app in H. cbn [fold_left] in H.
     fold (state_after grp evs) in H. fold s in H. pose proof (j7 _ _ H) as X. cbn [radv] in X. rewrite len_cnt. lia.
 Qed.
@@ -217,4 +217,71 @@ Lemma heartbeat_only_stable_step : forall grp evs e rid g m, let s := state_afte
 Proof.
   intros grp evs e rid g m s H. assert (E : e = ETick) by exact (step_outputs s e _ H). subst e.
   destruct (heartbeat_only_stable grp evs rid g m H) as (A & B & C & D & E & F & G & _). repeat split; auto.
+Qed.
+
+
+(* ---------- no consumer of the previous generation is running - registered OR still shutting down - when JoinGroup goes out ---------- *)
+Lemma flat_map_nil : forall A B (f : A -> list B) l, (forall x, In x l -> f x = []) -> flat_map f l = [].
+Proof. induction l as [|x l IH]; intros H; cbn; auto. rewrite (H x (or_introl eq_refl)), IH; auto. intros; apply H; right; auto. Qed.
+
+Lemma no_live_while_joining : forall grp evs g, let s := state_after grp evs in
+  In g (gens s) -> adv g = true -> is_prep g = false -> live_cids s = [].
+Proof.
+  intros grp evs g s Hin Ha Hp. pose proof (i_core _ (reachable_Inv grp evs)) as H. fold s in H.
+  pose proof (proj1 (prepared_before_join grp evs g Hin Ha)) as C0. fold s in C0.
+  unfold live_cids, shutting. rewrite C0. cbn [map app].
+  rewrite !flat_map_nil; auto.
+  - intros st Hst. assert (C : cnt has_s1 (stops s) = 0%nat).
+    { destruct (j14 _ _ H) as [X|X]; auto. pose proof (in_cnt_pos _ adv _ _ Hin Ha). cbn [radv] in X. lia. }
+    pose proof (cnt_zero_in _ _ _ _ C Hst) as Z. destruct st as [i e ph]. destruct ph; [discriminate|reflexivity].
+  - intros g' Hg'. destruct g' as [i ph] eqn:E. destruct ph; try reflexivity.
+    assert (X : g' = g). { apply (only_one_adv grp evs g g'); subst; auto. } subst g'. rewrite <- X in Hp. discriminate.
+Qed.
+
+Lemma no_live_at_join : forall grp evs e rid m, let s := state_after grp evs in
+  In (OJoin rid m) (snd (step s e)) -> live_cids (fst (step s e)) = [].
+Proof.
+  intros grp evs e rid m s Hin.
+  assert (G : exists g, In g (gens (fst (step s e))) /\ adv g = true /\ is_prep g = false).
+  { clear - Hin. destruct e; cbn [step] in *.
+    - destruct (start_d s); [destruct Hin as [X|[]]; discriminate|]. match type of Hin with context [join_and_sync ?x] => pose proof (join_and_sync_out x (OJoin rid m)) as J; destruct (join_and_sync x) end.
+      cbn [snd] in *. apply in_app_or in Hin. destruct Hin as [Hin|[X|[]]]; [|discriminate]. destruct (J Hin) as (? & X & _). discriminate.
+    - exfalso. match type of Hin with context [do_stop ?a ?b ?x] => pose proof (q_do_stop a b x) as J; destruct (do_stop a b x) end.
+      cbn [snd] in *. unfold Q in J. rewrite Forall_forall in J.
+      apply in_app_or in Hin. destruct Hin as [Hin|Hin]; [apply filter_In in Hin; destruct Hin as [Hin _]; specialize (J _ Hin); discriminate|].
+      apply in_app_or in Hin. destruct Hin as [[X|[]]|Hin]; [discriminate|apply filter_In in Hin; destruct Hin as [Hin _]; specialize (J _ Hin); discriminate].
+    - exfalso. pose proof (on_lookup_out _ _ _ _ Hin) as X. cbn in X. destruct X as (_ & _ & [(? & X)|(? & ? & X)]); discriminate.
+    - unfold on_meta, with_gen in *. destruct (take_first _ (gens s)) as [[g0 rest]|]; [|destruct Hin].
+      destruct r; [|exfalso; pose proof (q_gen_fail k (set_gens rest s)) as J; unfold Q in J; rewrite Forall_forall in J; specialize (J _ Hin); discriminate].
+      destruct (stop_pend (set_gens rest s)); [destruct Hin|]. unfold prepare_and_join in *.
+      destruct (is_group _).
+      + destruct (consumers _).
+        * eexists. split; [left; reflexivity|split; reflexivity].
+        * exfalso. unfold begin_shutdown in Hin. cbn [snd] in Hin. apply in_map_iff in Hin. destruct Hin as (? & X & _). discriminate.
+      + eexists. split; [left; reflexivity|split; reflexivity].
+    - exfalso. pose proof (on_join_out _ _ _ _ Hin) as X. cbn in X. destruct X as (_ & _ & [(? & X)|(? & ? & X)]); discriminate.
+    - exfalso. pose proof (on_parts_out _ _ _ _ Hin) as X. cbn in X. destruct X as (_ & _ & [(? & X)|(? & ? & X)]); discriminate.
+    - exfalso. pose proof (on_sync_out _ _ _ _ Hin) as X. cbn in X. destruct X as (_ & _ & [(? & X)|(? & ? & X)]); discriminate.
+    - exfalso. pose proof (on_tick_out _ _ Hin) as X. cbn in X. destruct X as (_ & _ & [(? & X)|(? & ? & X)]); discriminate.
+    - exfalso. pose proof (on_hb_reply_out _ _ _ _ Hin) as X. cbn in X. destruct X as (_ & _ & [(? & X)|(? & ? & X)]); discriminate.
+    - exfalso. pose proof (on_fire_out _ _ _ Hin) as X. cbn in X. destruct X as (_ & _ & [(? & X)|(? & ? & X)]); discriminate.
+    - exfalso. pose proof (on_leave_out _ _ _ _ Hin) as X. cbn in X. destruct X as (_ & _ & [(? & X)|(? & ? & X)]); discriminate.
+    - exfalso. pose proof (on_cfail_out _ _ _ _ Hin) as X. cbn in X. destruct X as (_ & _ & [(? & X)|(? & ? & X)]); discriminate.
+    - unfold on_cshut in *. destruct (take_first (fun g => sh_has cid (gen_list g)) (gens s)) as [[g0 rest]|].
+      + assert (J : forall l, In (OJoin rid m) (snd (after_prepare (g_id g0) (set_gens rest s))) \/ In (OJoin rid m) l -> Q l ->
+                  exists g, In g (gens (fst (after_prepare (g_id g0) (set_gens rest s)))) /\ adv g = true /\ is_prep g = false).
+        { intros l [X|X] Ql; [|unfold Q in Ql; rewrite Forall_forall in Ql; specialize (Ql _ X); discriminate].
+          unfold after_prepare in *. destruct (stop_pend _); [destruct X|]. eexists. split; [left; reflexivity|split; reflexivity]. }
+        destruct ok.
+        * destruct (sh_all_done _); [apply (J []); [left; exact Hin|apply Q_nil]|destruct Hin].
+        * rewrite emits_fst. apply emits_out in Hin. eapply J; [destruct Hin as [X|X]; [right; exact X|left; exact X]|apply Q_stop_pending].
+      + exfalso. destruct (take_first (fun st => sh_has cid (stop_list st)) (stops s)) as [[st rest]|]; [|destruct Hin].
+        destruct ok.
+        * destruct (sh_all_done _); [|destruct Hin]. pose proof (q_coord_stop st (set_stops rest s)) as J. unfold Q in J; rewrite Forall_forall in J; specialize (J _ Hin); discriminate.
+        * apply emits_out in Hin. destruct Hin as [X|X].
+          -- pose proof (Q_stop_pending (sh_mark_done cid (stop_list st))) as J. unfold Q in J; rewrite Forall_forall in J; specialize (J _ X); discriminate.
+          -- pose proof (q_coord_stop st (set_stops rest s)) as J. unfold Q in J; rewrite Forall_forall in J; specialize (J _ X); discriminate. }
+  destruct G as (g & G1 & G2 & G3).
+  pose proof (no_live_while_joining grp (evs ++ [e]) g) as X. unfold state_after in X. rewrite fold_left_app in X. cbn [fold_left] in X.
+  fold (state_after grp evs) in X. fold s in X. exact (X G1 G2 G3).
 Qed.
